@@ -242,6 +242,18 @@ func checkRRSweepShape(p *Prog, r *Report, ri *rrInfo) {
 	// (b) wrap edge: level -= G
 	var dec, rearm *ssa.Store
 	for _, st := range FieldStores(fn, ri.typ, ri.cwF) {
+		// the iterator reset on the refusing exit (level := 0 where no server is returned any more) is not part of the sweep
+		if k, isC := constInt(st.Val); isC && k == 0 {
+			refusing := true
+			for x := range Reach(fn, st, nil, nil) {
+				if ret, ok := x.(*ssa.Return); ok && !isNilConst(ReturnOperand(ret, 0)) {
+					refusing = false
+				}
+			}
+			if refusing {
+				continue
+			}
+		}
 		rf := ToRat(BuildExpr(p, st.Val, nil))
 		if rf.Add(rfAtom(CW), -1).P[CW] == nil && rf.P[CW] != nil {
 			dec = st
